@@ -7,6 +7,7 @@ import RTV.Lemmas.UrlDec0
 import RTV.Lemmas.UrlDec1
 import RTV.Lemmas.UrlDec2
 import RTV.Lemmas.UrlDec3
+import RTV.Lemmas.PhoneRun
 /-!
 # C13 — IP addresses, GUIDs and other sequence entities: sound and complete recognition
 
@@ -277,6 +278,59 @@ set_option maxRecDepth 100000 in
 theorem url_family_size :
     RTV.Gen.urlFamily0.length + RTV.Gen.urlFamily1.length + RTV.Gen.urlFamily2.length +
       RTV.Gen.urlFamily3.length ≥ 100 := by decide +kernel
+
+/-! ### phone numbers (`BasePhoneNumberExtractor.extract`: ten regenerated patterns, sweep, post-processing) -/
+
+/-- C13 (phone, span theorem for ANY regex outcome): whatever the regexes / tables answer (`PhoneOracle`), whatever the
+mask list, the text and the candidates, every entity that leaves the post-processing loop comes from one candidate
+`e`, keeps its tag, `e` passed the digit-count / SSN / forbidden-suffix / false-positive-prefix filters, and the entity
+is `e` itself or `e` re-spanned to start at an international dialling prefix: text = stripped slice, end not beyond
+`e`'s end (equal to it when the prefix match ends right before the `-`, as `0(0|11)$` does). -/
+theorem phone_post_span (O : RTV.Phone.PhoneOracle) (masks : List (Nat × Nat)) (source : List Nat) (ers : List ER)
+    (hint : ∀ f a b, O.intl f = some (a, b) → a ≤ b ∧ b ≤ f.length)
+    (r : ER) (h : r ∈ RTV.Phone.postProcess O masks source ers) :
+    ∃ e ∈ ers, r.data = e.data ∧ RTV.Phone.Passed O source e ∧
+      (r = e ∨
+        (∃ me, O.intl (sliceI source 0 ((e.start : Int) - 1)) = some (r.start, me) ∧
+          r.start ≤ me ∧ me + 1 ≤ e.start ∧ r.len = e.len + (me - r.start) + 1 ∧
+          r.text = strip O.isSpace (sliceI source r.start (r.start + r.len)) ∧
+          (e.start + e.len ≤ source.length → r.start + r.len ≤ e.start + e.len ∧
+            (me + 1 = e.start → r.start + r.len = e.start + e.len)))) :=
+  RTV.Phone.postProcess_span O masks source ers hint r h
+
+/-- C13 (phone, the prefix rejections): a candidate that is reported unchanged stands at the start of the text, or the
+character before it is no boundary marker (`- . / + # *`) and no forbidden prefix marker (`, : %` — a `:` is allowed
+after a letter), or it is a `-` that follows neither a digit nor a lower-case letter. -/
+theorem phone_kept_prefix (O : RTV.Phone.PhoneOracle) (source : List Nat) (e : ER)
+    (h : RTV.Phone.judge O source e = .keep) :
+    e.start = 0 ∨
+    (let ch := (index source ((e.start : Int) - 1)).getD 0
+     (RTV.Phone.boundaryMarkers.contains ch = false ∧
+        (O.forbiddenPrefix.contains ch = false ∨
+          (ch = 58 ∧ O.colonOk (sliceI source 0 ((e.start : Int) - 1)) = true))) ∨
+     (ch = 45 ∧ 2 ≤ e.start ∧ O.fmtInd e.text = true ∧ O.isDigit (source.getD (e.start - 2) 0) = false ∧
+        O.isLower (source.getD (e.start - 2) 0) = false)) :=
+  RTV.Phone.judge_keep O source e h
+
+/-- C13 (phone, end to end on the regenerated regexes and tables): every reported entity lies inside the text, stems
+from a candidate that is exactly a match of one of the ten phone patterns (tag kept) and passed the filters, and is
+that candidate or its extension to the left. -/
+theorem phone_extract_spec (E : SeqEnv) (source : List Nat) : ∀ r ∈ phoneExtract E source,
+    r.start + r.len ≤ source.length ∧
+    ∃ e : ER, e.start + e.len ≤ source.length ∧
+      (∃ p ∈ phoneRegexes, e.data = p.2 ∧ r.data = p.2 ∧ Matches E.T p.1 source.toArray e.start (e.start + e.len)) ∧
+      RTV.Phone.Passed (phoneOracleOf E) source e ∧
+      (r = e ∨ (r.start < e.start ∧ r.start + r.len ≤ e.start + e.len ∧
+        r.text = strip E.K.isSpace (sliceI source r.start (r.start + r.len)))) :=
+  phoneExtract_spec E source
+
+/-- every end the matcher reports lies at or after the start and inside the string (any regex) -/
+theorem match_inside_text (T : Tables) (s : Array Nat) (r : RE) (i j : Nat) (h : Matches T r s i j) :
+    i ≤ j ∧ (i ≤ s.size → j ≤ s.size) := ends_bounds r i j h
+
+/-- `9 00-206-555-0123`: the candidate `206-555-0123` is re-spanned to `00-206-555-0123` (engine's tables) -/
+example : (phoneExtract fastSeqEnv (ofString "9 00-206-555-0123")).map (fun r => (r.start, r.len)) = [(2, 15)] := by
+  decide +kernel
 
 /-! ### `drop_leading_zeros` -/
 
